@@ -929,6 +929,57 @@ Theorem preinstalled_failed_not_activated {P} (sort_plugins : list P -> list P) 
 Proof. intros Hs. apply start_plugins_spec. assumption. Qed.
 
 (* ------------------------------------------------------------------ *)
+(** * A stub without a Synchronize handler
+    stub.Synchronize answers every message itself with the More flag it was sent and no updates: for ANY
+    transport, recalculation function and fuel the registration goes exactly as with a plugin whose
+    handler returns no updates - same messages, same outcome, no updates - and no handler is invoked. *)
+Section NoHandler.
+  Variables A B U : Type.
+  Variable xmit : list A -> list B -> bool -> xres.
+  Variable rc : Z -> Z -> Z -> Z -> option (Z * Z).
+  Notation bare := (stub_sync (A := A) (B := B) (U := U) None).
+  Notation quiet := (stub_sync (A := A) (B := B) (U := U) (Some (fun _ _ => Some []))).
+
+  Definition nh_rel (st1 : stub_state A B) (o1 o2 : outcome A B U (stub_state A B)) : Prop :=
+    same_outcome o1 o2 /\ (forall st, final_state o1 = Some st -> st = st1).
+
+  Lemma nh_rel_push st1 c o1 o2 : nh_rel st1 o1 o2 -> nh_rel st1 (push c o1) (push c o2).
+  Proof.
+    unfold nh_rel. destruct o1, o2; cbn [push same_outcome final_state]; try tauto.
+    - intros [[-> ->] H2]. repeat split; assumption.
+    - intros [[-> ->] H2]. repeat split; assumption.
+    - intros [-> H]. split; [reflexivity|exact H].
+    - intros [-> H]. split; [reflexivity|exact H].
+  Qed.
+
+  Lemma loop_no_handler : forall fuel ps cs pp cp st1 st2,
+    nh_rel st1 (sync_loop xmit bare rc fuel ps cs pp cp st1) (sync_loop xmit quiet rc fuel ps cs pp cp st2).
+  Proof.
+    induction fuel as [|fuel IH]; intros ps cs pp cp st1 st2.
+    - unfold nh_rel. cbn. repeat split; try discriminate; tauto.
+    - cbn [sync_loop]. destruct (negb (slice_ok ps pp && slice_ok cs cp)).
+      { unfold nh_rel. cbn. repeat split; try discriminate; tauto. }
+      destruct (xmit (take pp ps) (take cp cs) ((pp <? len ps) || (cp <? len cs))) as [|mx ml|].
+      + destruct ((pp <? len ps) || (cp <? len cs)) eqn:EM.
+        * cbn [stub_sync r_update r_more is_nil negb Bool.eqb orb]. apply nh_rel_push. apply IH.
+        * cbn [stub_sync]. destruct (stub_append (ss_acc st2) (take pp ps) (take cp cs)) as [aps acs].
+          cbn [negb r_update]. unfold nh_rel. cbn [same_outcome final_state].
+          repeat split; try reflexivity.
+          intros st E. inversion E. reflexivity.
+      + destruct (rc pp cp mx ml) as [[pp' cp']|]; [apply IH|].
+        unfold nh_rel. cbn [same_outcome final_state]. repeat split; try tauto. intros st E. inversion E. reflexivity.
+      + unfold nh_rel. cbn [same_outcome final_state]. repeat split; try tauto. intros st E. inversion E. reflexivity.
+  Qed.
+
+  Theorem no_handler_same_outcome fuel pods ctrs (st1 st2 : stub_state A B) :
+    same_outcome (synchronize xmit bare rc fuel pods ctrs st1) (synchronize xmit quiet rc fuel pods ctrs st2) /\
+    (forall st, final_state (synchronize xmit bare rc fuel pods ctrs st1) = Some st -> st = st1).
+  Proof.
+    destruct (loop_no_handler fuel pods ctrs (len pods) (len ctrs) st1 st2) as [H1 H2]. split; assumption.
+  Qed.
+End NoHandler.
+
+(* ------------------------------------------------------------------ *)
 (** * A cap on the retries is wrong: the witness *)
 (* one large object followed by 20000 objects of one byte; eight objects fit into a message (so
    delivery is owed, I4), nine do not when the large one is among them *)
